@@ -147,6 +147,10 @@ func c11Run(r *vcore.Run, c c11Case) {
 			req.Body.Close()
 			req.Body = io.NopCloser(bytes.NewReader(body))
 		}
+		if req.URL.Host == "" || req.URL.Scheme == "" {
+			// nothing leaves the machine for a URL without scheme or host
+			return nil, fmt.Errorf("unsupported protocol scheme %q", req.URL.Scheme)
+		}
 		kind := "unknown"
 		if n.hosts[req.URL.Host] != nil {
 			kind = "registry"
@@ -378,6 +382,20 @@ func c11Cases(thorough bool) []c11Case {
 		eb := c11Event{Host: "b.example:5000", Required: "repository:x:pull", Body: "none"}
 		for _, h := range [][]c11Event{{ea, eb}, {eb, ea}, {ea, eb, ea}, {ea, ea, eb, eb}} {
 			out = append(out, c11Case{Hosts: []*authHostCfg{sa, sb}, History: h})
+		}
+	}
+	// two registries of the same make, each naming its token endpoint by a path on itself: the very same
+	// challenge text from two hosts means two different realms (a client may refuse a relative realm, but
+	// whatever it does with it stays with the host that sent it)
+	for _, cr := range []string{"basic", "basic+refresh", "refresh"} {
+		for _, chal := range []string{`Bearer realm="/service/token",service="registry"`, `Bearer realm="//auth-a.example/token",service="registry"`, `Bearer realm="token",service="registry",scope="repository:x:pull"`} {
+			ra := &authHostCfg{Host: "a.example", Scheme: "raw", RawChal: []string{chal}, Challenge: "relative-realm", Creds: cr, TokenMode: "grant", Lifetime: 60}
+			rb := &authHostCfg{Host: "b.example:5000", Scheme: "raw", RawChal: []string{chal}, Challenge: "relative-realm", Creds: cr, TokenMode: "grant", Lifetime: 60}
+			ea := c11Event{Host: "a.example", Required: "repository:x:pull", Body: "none"}
+			eb := c11Event{Host: "b.example:5000", Required: "repository:x:pull", Body: "none"}
+			for _, h := range [][]c11Event{{ea, eb}, {eb, ea}, {ea, eb, ea}, {eb, ea, eb}} {
+				out = append(out, c11Case{Hosts: []*authHostCfg{ra, rb}, History: h})
+			}
 		}
 	}
 	return out
